@@ -12,6 +12,15 @@ Axioms built into the normaliser (listed in every evidence file that uses ALG):
 from fractions import Fraction
 
 MAX_TERMS = 6000
+# work budget (monomial products) for one evaluation; reset by the caller
+BUDGET = [2_000_000]
+DEADLINE = [0.0]
+
+
+def reset_budget(n=600_000, seconds=6.0):
+    import time
+    BUDGET[0] = n
+    DEADLINE[0] = time.time() + seconds
 
 
 class TooBig(Exception):
@@ -95,8 +104,16 @@ def p_add(a, b, sign=1):
 
 
 def p_mul(a, b):
-    if len(a) * len(b) > MAX_TERMS * 40:
+    n = len(a) * len(b)
+    if n > MAX_TERMS * 40:
         raise TooBig()
+    BUDGET[0] -= n
+    if BUDGET[0] < 0:
+        raise TooBig("work budget exhausted")
+    if n > 2000:
+        import time
+        if time.time() > DEADLINE[0]:
+            raise TooBig("time budget exhausted")
     r = {}
     for m1, c1 in a.items():
         for m2, c2 in b.items():
